@@ -7,7 +7,7 @@ import json, os, random, shutil
 import common, lsp
 from common import hexs, Broken
 
-SEGS = ["a", "b", "util", "x"]
+SEGS = ["a", "b", "util", "x", "src", "test", "build", "packages"]   # a module directory may be called like a source directory
 
 
 class Pkg:
